@@ -62,6 +62,21 @@ def _first_diff(a, b, path='$'):
 
 
 KF_ABUT = 'input-abutting-tokens'
+KF_ODD = 'unindented-comment-inside-indented-list'
+
+
+def _unindented_comment_in_indented_list(m):
+    """In the input, an unindented comment directly below an entry that is itself followed by an indented comment lies inside the
+    entry's indented block and becomes an element of its meta/postings list; items added after it land behind a line that ends
+    the block when the text is lexed again."""
+    for a in ('raw_meta_with_comments', 'raw_postings_with_comments'):
+        if ops.desc_of(type(m), a) is not None:
+            try:
+                if any(isinstance(x, models.BlockComment) and not x.indent for x in getattr(m, a)):
+                    return True
+            except Exception:
+                pass
+    return False
 
 
 def respace(f):
@@ -92,6 +107,7 @@ def history(col, text, f, hseed, lf, count):
         if op is None:
             continue
         pre = walker.visible(f.token_store)
+        odd_layout = _unindented_comment_in_indented_list(op.parent)
         try:
             op.apply()
         except Exception as e:
@@ -108,6 +124,8 @@ def history(col, text, f, hseed, lf, count):
                 col.nontrivial(text, tuple(log))
         v = compare(col, f, text, log, {'lf': lf})
         if v:
+            if odd_layout and getattr(op, 'list_attr', None) in ('raw_meta_with_comments', 'raw_postings_with_comments'):
+                return (KF_ODD, f'after {op.desc}: {v[1]}', dict(v[2], note='the edited list held an unindented comment before the edit')), log
             return (f'{v[0]}:{op.kind}', f'after {op.desc}: {v[1]}', v[2]), log
     return None, log
 
@@ -156,7 +174,18 @@ def _pinned_abut(col):
         col.violation(KF_ABUT, v[1], v[2])
 
 
-PINNED = [(KF_ABUT, _pinned_abut)]
+def _pinned_odd(col):
+    text = '2000-01-01 close Assets:Foo\n; c\n  ; d\n'
+    f = common.parser().parse(text, models.File)
+    f.directives[0].meta['aa'] = 'v'
+    f.directives[0].raw_meta_with_comments.insert(0, models.MetaItem.from_value('kk', 'v', indent='    '))
+    v = compare(col, f, text, ["directives[0].meta['aa'] = 'v'", "directives[0].raw_meta_with_comments.insert(0, MetaItem.from_value('kk', 'v', indent='    '))"], {})
+    col.ev()
+    if v:
+        col.violation(KF_ODD, v[1], v[2])
+
+
+PINNED = [(KF_ABUT, _pinned_abut), (KF_ODD, _pinned_odd)]
 
 
 def derive(counters):
